@@ -545,7 +545,7 @@ def check_error_callback(ck, wt):
 
 def run(ck):
     ck._orig_repo = getattr(ck, "_orig_repo", None) or ck.repo
-    ck.repo = normalized(ck.repo, NORM_MODULES)  # alias / named-boolean / temporary / setter-helper normalisation (vt/x_syncnorm.py)
+    ck.repo = normalized(ck.repo, NORM_MODULES, only=('tornado/gen.py', 'tornado/concurrent.py'))  # alias / named-boolean / temporary / setter-helper normalisation (vt/x_syncnorm.py)
     ck.rule("C36.cancel-aware", "a .result()/.exception() on a future the callback did not create is under a handler for CancelledError/BaseException, under `not F.cancelled()`, or after an earlier read that returned (else a cancelled input raises out of the callback and the output is never settled)")
     ck.rule("C36.settle", "every settle of an output future is under `not F.done()` or on a future created in the same function")
     ck.rule("C36.chain", "chain_future registers copy once on the source; copy settles/cancels the target exactly once unless it was done, with the source's own result/exception; an explicit cancelled path acts on the target")
